@@ -118,7 +118,12 @@ def run(prog, chk):
                 if s['k'] == 'decls':
                     for v in s['d']:
                         if v is mats[0]:
-                            M = KS.matrix_from_initlist(SX.strip(v['init']), env)
+                            i_ = SX.strip(v['init'])
+                            if SX.is_node(i_) and i_.get('k') in ('call', 'mcall'):
+                                from .C01 import _matrix_of      # the matrix comes from a builder function (`pauliMatrix(Axis::X)`)
+                                M = _matrix_of(prog, KS, i_, env)
+                            else:
+                                M = KS.matrix_from_initlist(i_, env)
                         elif v.get('init') is not None:
                             env[v['id']] = KS.to_sympy(v['init'], env)
             uni = KS.unitary(M)
